@@ -226,6 +226,74 @@ theorem definitions_well_formed (env : Env) (root : Str) (script : List DefOp) (
   let i := buildB_inv ext env root script st hb
   ⟨i.prog.tree, i.prog.keys, i.handles⟩
 
+/-! ## following the command-name tokens -/
+
+/-- the chain of nodes selected by a list of command words, starting at node `n` -/
+def follows (P : Prog) : Nat → List Str → Option Nat
+  | n, [] => some n
+  | n, w :: ws =>
+    match lookup w (P.node n).cmds with
+    | some c => follows P c ws
+    | none => none
+
+/-- one command word at a head position selects that child and nothing else happens -/
+theorem step_command_word (s : PState) (w : Str) (c : Nat)
+    (he : s.err = none) (hc : s.ctx = .idle) (hd : w ≠ dashdash) (hno : (isOption w mode).2 = false)
+    (hl : lookup w (s.P.node s.cur).cmds = some c) :
+    step ext mode s w = { s with cur := c, textStart := s.rem.length } := by
+  have hd' : (w == dashdash) = false := by simpa using hd
+  have hiso : isOption w mode = ((isOption w mode).1, false) := by rw [← hno]
+  simp only [step, stepG, he, hc, head, hd', Option.isSome_none, Bool.false_eq_true, ↓reduceIte]
+  rw [hiso]
+  simp only [hl]
+
+/-- **The deepest command reached by following the command-name tokens is the one addressed.**  From a head
+position, a run of words each of which is the registered name of a sub-command of the level reached so far
+(and is neither `--` nor option-looking) moves the selected command down that chain — and changes nothing else:
+no option, no remaining text, no unknown option, no error. -/
+theorem command_words_select (words : List Str) (s : PState) (target : Nat)
+    (he : s.err = none) (hc : s.ctx = .idle)
+    (hw : ∀ w ∈ words, w ≠ dashdash ∧ (isOption w mode).2 = false)
+    (hf : follows s.P s.cur words = some target) :
+    let r := words.foldl (step ext mode) s
+    r.cur = target ∧ r.P = s.P ∧ r.rem = s.rem ∧ r.unk = s.unk ∧ r.err = none ∧ r.ctx = .idle := by
+  induction words generalizing s with
+  | nil => simp only [follows, Option.some.injEq] at hf; exact ⟨hf, rfl, rfl, rfl, he, hc⟩
+  | cons w ws ih =>
+    simp only [follows] at hf
+    cases hl : lookup w (s.P.node s.cur).cmds with
+    | none => simp [hl] at hf
+    | some c =>
+      simp only [hl] at hf
+      have h1 := step_command_word ext mode s w c he hc (hw w (by simp)).1 (hw w (by simp)).2 hl
+      simp only [List.foldl_cons, h1]
+      exact ih { s with cur := c, textStart := s.rem.length } he hc (fun x hx => hw x (by simp [hx])) hf
+
+/-- … and `Dispatch` then runs exactly that command's function, once, with the remaining arguments and that
+command as the view (`dispatch_spec`): the whole command line `c₁ c₂ … cₖ` on a program where help is not
+requested and no required option is missing. -/
+theorem command_line_dispatches (P : Prog) (words : List Str) (target f : Nat)
+    (hw : ∀ w ∈ words, w ≠ dashdash ∧ (isOption w mode).2 = false)
+    (hf : follows P 0 words = some target)
+    (hfn : (P.node target).fn = some f) (hnh : (P.node target).isHelp = false)
+    (hh : helpRequested P target = false) (hr : checkRequired P target = none) :
+    dispatch ext (parseArgs ext mode P words) [] = .ran f target [] := by
+  have h := command_words_select ext mode words (initState P) target rfl rfl hw hf
+  simp only at h
+  obtain ⟨h1, h2, h3, h4, h5, h6⟩ := h
+  have hfin : parseArgs ext mode P words = words.foldl (step ext mode) (initState P) := by
+    unfold parseArgs run finish
+    simp [h5, h6]
+  rw [hfin]
+  generalize words.foldl (step ext mode) (initState P) = r at h1 h2
+  have h2' : r.P = P := h2
+  unfold dispatch
+  simp only [h1, h2', hh, hr, hfn, hnh, Bool.false_eq_true, ↓reduceIte]
+
+-- `cmd` on the demo program: its function (id 1) runs, with the command as the view
+example : follows Demo.prog 0 [b "cmd"] = some 1 ∧
+    dispatch Demo.ext (parseArgs Demo.ext .normal Demo.prog [b "cmd"]) [] = .ran 1 1 [] := by decide
+
 /-- on the demo program: the command `cmd` resolves the root's `num`, `n` and `verbose` to the
 root's own cells, and a value given after the command name is seen through the root's table -/
 example :
